@@ -333,6 +333,17 @@ def main(argv):
                 m["Mu_y"] = m["Mu_x"]
             if not any(m["J_re"] for m in p.blockprops):
                 p.blockprops[0]["J_re"] = 1.5
+            # lamination type and fill factor are part of the reduction: a laminated straight-line table has to give what the
+            # laminated linear material gives (the table is rescaled to the iron / air mixture in GetSlopes for in-plane
+            # laminations, the on-edge types are combined by the solver)
+            # (every run has in-plane laminated pairs: pair 0, 2, 4, ... ; on-edge ones: 1, 5, ... ; unlaminated: 3, 7, ...)
+            lt = [0, rng.choice([1, 2]), 0, None][t % 4]
+            for m in p.blockprops:
+                if m["Mu_x"] > 1.0 and lt is not None:
+                    m["LamType"] = lt
+                    m["LamFill"] = rng.choice([0.5, 0.9, 0.97])
+                    stats["paired_laminated"] = stats.get("paired_laminated", {})
+                    stats["paired_laminated"][str(lt)] = stats["paired_laminated"].get(str(lt), 0) + 1
             plin = p
             pnl = copy.deepcopy(p)
             ntab = rng.choice([2, 3, 6])
@@ -345,6 +356,8 @@ def main(argv):
                 m["Mu_x"] = m["Mu_y"] = 50.0
                 plin.blockprops[0]["Mu_x"] = plin.blockprops[0]["Mu_y"] = 50.0
                 m["BH"] = [(0.0, 0.0), (0.7, 0.7 / (MUO * 50.0)), (2.0, 2.0 / (MUO * 50.0))]
+                m["LamType"] = plin.blockprops[0]["LamType"] = lt if lt is not None else 0
+                m["LamFill"] = plin.blockprops[0]["LamFill"] = 0.5 if lt is not None else 1.0
             sols, energies = [], []
             failed = False
             for nm, pp in (("lin", plin), ("tab", pnl)):
@@ -372,10 +385,17 @@ def main(argv):
             sc = max(abs(a) for a in A1) or 1.0
             d = max(abs(a - b_) for a, b_ in zip(A1, A2)) / sc if len(A1) == len(A2) else float("inf")
             stats["worst_paired_diff"] = max(stats["worst_paired_diff"], d)
-            if d > 1e-6:
+            # on-edge laminations (types 1 / 2): the nonlinear branch of the solvers takes mu*fill along the sheets where the linear
+            # branch takes mu*fill + (1 - fill) (known finding); the potentials then differ by a fraction of (1 - fill) / (mu fill)
+            onedge = [(1.0 - m["LamFill"]) / (m["Mu_x"] * m["LamFill"]) for m in pnl.blockprops if "BH" in m and m.get("LamType", 0) in (1, 2)]
+            if d > 1e-6 and onedge and d <= 3.0 * max(onedge):
+                ck.violation("linear-reduction:on-edge-lamination", "straight-line B-H tables vs the linear material, laminations on edge: potentials differ by %.3g "
+                             "(relative), (1 - fill) / (mu fill) = %.3g" % (d, max(onedge)),
+                             dict(linear=Run(build, work, "pair%d_lin" % t, plin).files(), table=Run(build, work, "pair%d_tab" % t, pnl).files()))
+            elif d > 1e-6:
                 ck.violation("linear-reduction:solution", "straight-line B-H tables vs the linear material of the same permeability: potentials differ by %.3g (relative)" % d,
                              dict(linear=Run(build, work, "pair%d_lin" % t, plin).files(), table=Run(build, work, "pair%d_tab" % t, pnl).files()))
-            elif energies[0] is not None and energies[1] is not None and abs(energies[0] - energies[1]) > 1e-6 * abs(energies[0]):
+            elif not onedge and energies[0] is not None and energies[1] is not None and abs(energies[0] - energies[1]) > 1e-6 * abs(energies[0]):
                 ck.violation("linear-reduction:energy", "straight-line B-H tables vs linear material: stored energy %.12g vs %.12g" % (energies[1], energies[0]),
                              dict(linear=Run(build, work, "pair%d_lin" % t, plin).files(), table=Run(build, work, "pair%d_tab" % t, pnl).files()))
         # saturating tables: the Newton iteration terminates
